@@ -88,4 +88,13 @@ package action
 //@   ensures[C04,C02,C11]   !isFeeAttrs(packet) ==> err != nil && bank == old(bank) && ta.destinationCoin == old(ta.destinationCoin)
 
 //@ func NewFeeController(logger, eventService, bankKeeper) (result, err)
+//@   ensures[C11,C14,C17] err == nil ==> result != nil && feeControllerWF(result)      // object invariant, see the end of this file
 //@   ensures[C05] err == nil ==> result != nil && result.BaseController != nil && result.BaseController.id == core.ACTION_FEE && result.BankKeeper != nil && result.eventService != nil && result.logger != nil
+
+// ---------------------------------------------------------------------------------------------
+// Object invariants: the injected dependencies are present. Proved on the constructors (which end in
+// Validate), protected by the scan typeinv#immutable (no allocation or field store outside them).
+// Panic freedom (C14, C11, C17) may rely on them for every non-nil controller.
+// ---------------------------------------------------------------------------------------------
+//@ macro feeControllerWF(c) = c.logger != nil && c.eventService != nil && c.BaseController != nil && c.BankKeeper != nil
+//@ typeinv FeeController feeControllerWF NewFeeController
